@@ -91,6 +91,12 @@ RoundTrip == (Len(hist) >= 2 /\ hist[Len(hist)][1] = "restart" /\ hist[Len(hist)
 \* a save completed after a reset has replaced the older, fuller document
 ResetIsSaved == (Len(hist) >= 5 /\ hist[Len(hist)][1] = "save_rename" /\ hist[Len(hist)-4][1] = "reset") => main = Doc({})
 
+\* ---- refinement ----------------------------------------------------------------
+\* every behaviour of this design is a behaviour of the history-free CacheInd, whose inductive invariant Apalache
+\* discharges for ANY number of saves, resets, crashes and restarts (TLC checks the step correspondence here)
+CI == INSTANCE CacheInd WITH justLoaded <- (alive /\ hist # <<>> /\ hist[Len(hist)][1] = "restart")
+RefinesInd == CI!Spec
+
 Emit == (hist = <<>> \/ hist[Len(hist)][1] # "restart") \/
         PrintT(<<"CASE", ToJson([hist |-> hist, main |-> main, backup |-> backup, loaded |-> loaded, warned |-> warned])>>)
 =============================================================================
